@@ -2359,8 +2359,9 @@ impl<I: SignedInteger> Subframe<I> {
                             .iter()
                             .rev()
                             .zip(coefficients)
-                            .map(|(x, y)| (*x).into() * y)
-                            .sum::<i64>()
+                            .fold(0i64, |sum, (x, y)| {
+                                sum.wrapping_add(Into::<i64>::into(*x).wrapping_mul(*y))
+                            })
                             >> qlp_shift,
                     ),
                 );
